@@ -14,6 +14,7 @@ BEHAVIOURS = ["conn-error", "timeout-exc", "http-500", "json-invalid", "json-nul
               "tag:v99.0.0", "tag:99.0.0", "tag:0.0.1", "tag:99.0.0rc1", "tag:99.0.0.dev1", "tag:garbage", "tag:",
               "tag:release-99.1", "tag:v1.1.2026092714223300000000-nightly", "tag:" + "9" * 400, "tag:1." * 60 + "x"]
 HANG = 10 ** 9
+OUTCOMES = ["ok", "fails-11", "fails-30"]
 LATENCIES = [0, 300, 900, 2500, 4000, 60000]
 
 
@@ -127,7 +128,15 @@ def model(sym):
     def echo(msg=None, **k):
         st["prints_" + st["ctx"]].append(str(msg))
 
-    fake_click = types.SimpleNamespace(secho=echo, echo=echo, style=lambda m, **k: m)
+    import click as _click
+
+    class ClickProxy:
+        def __getattr__(self, k):
+            return getattr(_click, k)
+
+    fake_click = ClickProxy()
+    fake_click.secho = fake_click.echo = echo
+    outcome = sym.choose("command_outcome", OUTCOMES)
     import ascmhl.logger as LG
     verbose_cmd = sym.flag("command_run_with_v")
     # schedule: if the answer arrives after the join gave up, the checker thread's body runs (atomically) just before the
@@ -257,7 +266,10 @@ def model(sym):
 
     saved = (U.requests, CLI.updater, CLI.click)
     saved_lg = (LG.click, LG.verbose_logging)
+    saved_uclick = U.__dict__.get("click")
     U.requests, CLI.click = fake_requests, fake_click
+    if saved_uclick is not None:
+        U.click = fake_click
     LG.click, LG.verbose_logging = fake_click, verbose_cmd
     import time as _time
     saved_mods = {}
@@ -271,16 +283,37 @@ def model(sym):
         st["spy"] = spy
         pse.require(st.get("started") == 1, "thread-started-once", str(st.get("started")))
         pse.require(st.get("started") == 1, "thread-started-once", str(st.get("started"))) if False else None
-        st["armed"] = True
         CLI.updater = spy
+        # the command group is driven the way the console script drives it, with a stand-in command that takes D ms and ends
+        # like a real one does: normally, or with one of the tool's error codes
+        import ascmhl.errors as ER
+        from click.testing import CliRunner
+        group = CLI.mhltool_cli if tool == "ascmhl" else CLI.mhldebugtool_cli
+
+        @_click.command(name="verif-stand-in")
+        def stand_in():
+            st["armed"] = True  # from here on the command's thread clock reads D
+            st["prints_main"].append("<command output>")
+            if outcome == "fails-11":
+                raise ER.VerificationFailedException()
+            if outcome == "fails-30":
+                raise ER.NoMHLHistoryException("x")
+
+        group.add_command(stand_in)
         try:
-            CLI.update()
-            raised = None
-        except Exception as ex:
-            raised = "%s: %s" % (type(ex).__name__, ex)
-        tag = "server %s%s" % (behaviour, " (never answers)" if hang else "")
+            res = CliRunner(mix_stderr=False).invoke(group, ["verif-stand-in"])
+        finally:
+            group.commands.pop("verif-stand-in", None)
+        want_exit = {"ok": 0, "fails-11": 11, "fails-30": 30}[outcome]
+        raised = None
+        if res.exception is not None and not isinstance(res.exception, SystemExit):
+            raised = "%s: %s" % (type(res.exception).__name__, res.exception)
+        tag = "server %s%s, command %s" % (behaviour, " (never answers)" if hang else "", outcome)
         pse.require(not st["prints_checker"], "checker-thread-prints", str(st["prints_checker"]))
         pse.require(raised is None, "result-callback-raises", "%s: %s" % (tag, raised))
+        pse.require(res.exit_code == want_exit, "exit-code-changed", "%s: exit %r, the command alone exits %r" % (tag, res.exit_code, want_exit))
+        pse.require(st["prints_main"][:1] == ["<command output>"], "stdout-changed", "%s: %r" % (tag, st["prints_main"][:2]))
+        st["prints_main"] = st["prints_main"][1:]
         pse.require(st["gets_main"] == 0 or truth(st["delay"] <= 1000), "termination-delayed-more-than-1s", tag + " (request on the main thread)")
         # the interpreter waits for non-daemon threads at exit
         total = st["delay"]
@@ -293,6 +326,8 @@ def model(sym):
             pse.require("update" in p.lower(), "unexpected-output", p)
     finally:
         U.requests, CLI.updater, CLI.click = saved
+        if saved_uclick is not None:
+            U.click = saved_uclick
         LG.click, LG.verbose_logging = saved_lg
         for (mod, name), real_mod in saved_mods.items():
             setattr(mod, name, real_mod)
@@ -309,6 +344,17 @@ v = ["-v"] if cfg.get("verbose") else []
 cmd = "info" if cfg["tool"] == "ascmhl" else "verify"
 argv = [cmd] + v + [cfg["dir"]]
 CliRunner().invoke(C.create, [cfg["dir"], "-h", "md5"])   # a sealed folder, so that the command succeeds and the result callback runs
+if cfg.get("outcome") == "fails-11":
+    # the file is altered after sealing: create (ascmhl) / verify (ascmhl-debug) end with the verification-failed code
+    open(os.path.join(cfg["dir"], "f.txt"), "w").write("altered")
+    cmd = "create" if cfg["tool"] == "ascmhl" else "verify"
+    argv = [cmd] + v + [cfg["dir"]] + (["-h", "md5"] if cmd == "create" else [])
+elif cfg.get("outcome") == "fails-30":
+    # a folder without a history: info / verify end with the no-history code
+    other = cfg["dir"] + "-unsealed"
+    os.makedirs(other, exist_ok=True)
+    open(os.path.join(other, "g.txt"), "w").write("y")
+    argv = [cmd] + v + [other]
 bare = CliRunner(mix_stderr=False).invoke(getattr(C, cmd), argv[1:])   # the command itself, outside the group: no update check
 from verif.harness.c20 import make_get
 calls = []
@@ -322,7 +368,14 @@ if cfg["tool"] == "ascmhl":
     from ascmhl.cli.ascmhl import mhltool_cli as cli
 else:
     from ascmhl.cli.ascmhl_debug import mhldebugtool_cli as cli
-time.sleep(cfg.get("busy_s", 0))   # the command's own duration: what it spends hashing before the result callback runs
+# the command's own duration (what it spends reading and hashing before it ends): the history loader, which every command calls
+# right after it has set up logging, takes busy_s longer
+import ascmhl.history as _H
+_load = _H.MHLHistory.load_from_path.__func__
+def _slow_load(cls, *a, **k):
+    time.sleep(cfg.get("busy_s", 0))
+    return _load(cls, *a, **k)
+_H.MHLHistory.load_from_path = classmethod(_slow_load)
 t0 = time.time()
 res = CliRunner(mix_stderr=False).invoke(cli, argv)
 t1 = time.time()
@@ -351,16 +404,17 @@ def real(sym):
     behaviour = sym.choose("server_behaviour", BEHAVIOURS)
     hang = sym.flag("server_never_answers")
     L = sym.choose("response_latency_ms", LATENCIES) if not hang else HANG
+    outcome = sym.choose("command_outcome", OUTCOMES)
     busy = sym.int("command_duration_ms", 0, 5000) / 1000.0
     sym.int("late_thread_runs_before_read", 1, 9)
     verbose_cmd = sym.flag("command_run_with_v")
     d = tempfile.mkdtemp(prefix="mhlverif-c20-")
     try:
         open(os.path.join(d, "f.txt"), "w").write("x")
-        base = run_real({"tool": tool, "behaviour": "conn-error", "latency_s": 0, "dir": d, "verbose": verbose_cmd, "busy_s": busy})  # timing reference only
+        base = run_real({"tool": tool, "behaviour": "conn-error", "latency_s": 0, "dir": d, "verbose": verbose_cmd, "busy_s": busy, "outcome": outcome})  # timing reference only
         lat = 20.0 if hang else min(L, 4000) / 1000.0
-        got = run_real({"tool": tool, "behaviour": behaviour, "latency_s": lat, "dir": d, "verbose": verbose_cmd, "busy_s": busy})
-        tag = "server %s latency %.1fs%s" % (behaviour, lat, " (hang)" if hang else "")
+        got = run_real({"tool": tool, "behaviour": behaviour, "latency_s": lat, "dir": d, "verbose": verbose_cmd, "busy_s": busy, "outcome": outcome})
+        tag = "server %s latency %.1fs%s, command %s" % (behaviour, lat, " (hang)" if hang else "", outcome)
         pse.require(got.get("exit") is not None, "command-did-not-finish", "%s: %s" % (tag, str(got)[:300]))
         pse.require(got["exc"] == got["bare_exc"], "result-callback-raises", "%s: %s" % (tag, got.get("exc")))
         pse.require(got["exit"] == got["bare_exit"] and got["returncode"] == 0, "exit-code-changed", "%s: %r vs %r" % (tag, got.get("exit"), got.get("bare_exit")))
@@ -373,14 +427,15 @@ def real(sym):
         def too_slow(g, b0):
             return g["t_cmd"] - b0["t_cmd"] > 1.5 or g["wall"] - b0["wall"] > 2.2
         if too_slow(got, base):
-            base2 = run_real({"tool": tool, "behaviour": "conn-error", "latency_s": 0, "dir": d, "verbose": verbose_cmd, "busy_s": busy})
-            got2 = run_real({"tool": tool, "behaviour": behaviour, "latency_s": lat, "dir": d, "verbose": verbose_cmd, "busy_s": busy})
+            base2 = run_real({"tool": tool, "behaviour": "conn-error", "latency_s": 0, "dir": d, "verbose": verbose_cmd, "busy_s": busy, "outcome": outcome})
+            got2 = run_real({"tool": tool, "behaviour": behaviour, "latency_s": lat, "dir": d, "verbose": verbose_cmd, "busy_s": busy, "outcome": outcome})
             pse.require(not too_slow(got2, base2), "termination-delayed-more-than-1s",
                         "%s: command took %.2fs / %.2fs (reference %.2fs / %.2fs), process %.2fs / %.2fs (reference %.2fs / %.2fs)"
                         % (tag, got["t_cmd"], got2["t_cmd"], base["t_cmd"], base2["t_cmd"], got["wall"], got2["wall"], base["wall"], base2["wall"]))
     finally:
         import shutil
         shutil.rmtree(d, ignore_errors=True)
+        shutil.rmtree(d + "-unsealed", ignore_errors=True)
 
 
 def fn(sym):
